@@ -383,7 +383,9 @@ fn mode_c08(w: &mut CaseWriter, args: &Args, rng: &mut Rng) {
     stamps.sort();
     let keys = [1u64, 2];
     let mut n_ex = 0u64;
-    let maxlen = if args.thorough() { 4 } else { 3 };
+    // (histories of four operations with every purge placement are ~10^8 cases over ten stamps:
+    // the thorough tier widens the stamp universe and drops the thinning instead)
+    let maxlen = 3;
     for nsrc in [1usize, 2] {
         // ascending-by-time multisets (timely arrival) and all their source assignments,
         // with purges after every subset of positions
